@@ -194,10 +194,21 @@ def _lens(tier, bl):
 
 def _whole_cases(tier):
     out = []
+    if tier == 'quick':
+        # main algorithms at the length classes that matter (empty, one byte with bit residues, around the padding spill,
+        # block boundary, two-block spill); the IV/truncation variants at three lengths
+        for a in ('md5', 'sha1', 'sha256', 'sha512'):
+            bl = 16 * ALGS[a][1] // 8; ws = bl // 8
+            for n, rs in ((0, (0,)), (1, (0, 1, 7)), (bl - ws - 1, (0,)), (bl - ws, (0, 7)), (bl - 1, (0,)), (bl, (0, 1)), (bl + 1, (0,)), (2 * bl - ws, (0,))):
+                for r in rs: out.append({'alg': a, 'n': n, 'r': r})
+        for a in ('md4', 'sha0', 'sha224', 'sha384', 'sha512/224', 'sha512/256'):
+            bl = 16 * ALGS[a][1] // 8
+            for n in (0, 3, bl - bl // 8): out.append({'alg': a, 'n': n, 'r': 0})
+        return out
     for a in ALGS:
         bl = 16 * ALGS[a][1] // 8
         for n in _lens(tier, bl):
-            for r in ((0,) if tier == 'quick' and n not in (1, bl - bl // 8, bl) else (0, 1, 7) if tier == 'quick' else range(8)):
+            for r in range(8):
                 if n == 0 and r: continue
                 out.append({'alg': a, 'n': n, 'r': r})
     return out
@@ -228,7 +239,7 @@ def _(c):
     c.ensure('length', len(out) == OUTLEN[a])
 
 @obligation(P, '__call__/rejects-long-bitlen', cls='B', bound='message length 0..3 bytes and one block; bitlen = 8|M|+1..8|M|+16',
-            funcs=['crysp.padding.blockiterator.iterblocks', 'crysp.sha.SHA1.__call__', 'crysp.md.MD4.__call__'], cases={'alg': list(ALGS), 'n': [0, 1, 3, 64, 128]})
+            funcs=['crysp.padding.blockiterator.iterblocks', 'crysp.sha.SHA1.__call__', 'crysp.md.MD4.__call__'], cases=lambda tier: [{'alg': a, 'n': n} for a in ALGS for n in ((0, 3, 64) if tier == 'quick' else (0, 1, 3, 64, 128))])
 def _(c):
     a, n = c.case('alg'), c.case('n')
     M = c.bytes('M', n)
